@@ -111,6 +111,15 @@ structure DChunk where
   iData : Bool
   deriving Inhabited
 
+/-- a FORWARD-TSN / I-FORWARD-TSN entry `(si, key)` that stems from an abandoned message of incarnation `inc` of stream `si`
+and was taken after that incarnation had been reset (its Stream object deleted): it acts on the NEXT incarnation (D24) -/
+structure LateFwd where
+  si : Nat
+  ordered : Bool
+  inc : Nat
+  key : Nat
+  deriving Inhabited, BEq
+
 structure St where
   buf : Nat := 0
   maxOff : Nat := 0
@@ -132,12 +141,28 @@ structure St where
   lost : Bool := false                        -- a packet the predicates cannot interpret was processed (raw, parsed)
   resetIds : List Nat := []                   -- stream ids named by the reset requests of this sequence
   aborted : Bool := false                     -- the endpoint raised an ABORT at some point of this sequence (sticky)
+  delCount : List (Nat × Nat) := []           -- stream id ↦ number of times it was seen leaving the stream table (= incarnations over)
+  lateFwd : List LateFwd := []                -- FORWARD-TSN entries of an incarnation that was already reset when they were taken (D24)
   deriving Inhabited
 
 def lookupP (l : List ((Nat × Nat) × Nat)) (k : Nat × Nat) : Nat := (l.lookup k).getD 0
 def setP (l : List ((Nat × Nat) × Nat)) (k : Nat × Nat) (v : Nat) : List ((Nat × Nat) × Nat) := (k, v) :: l.filter (·.1 != k)
 
 def isRecvState (s : Nat) : Bool := s == 3 || s == 5 || s == 7
+
+def lookupN (l : List (Nat × Nat)) (k : Nat) : Nat := (l.lookup k).getD 0
+
+/-- serial "at or below" of sequence numbers: 16-bit SSNs (DATA) or 32-bit MIDs (I-DATA) -/
+def keyLE (il : Bool) (a b : Nat) : Bool :=
+  if il then serialLE a b else (b + 2^16 - a) % 2^16 < 2^15
+
+/-- D24: message `m` belongs to a later incarnation of its stream than a forward entry that was taken after its own incarnation
+had been reset, and that entry covers `m`'s sequence number: the receiver skips `m` although its sender never gave it up -/
+def St.d24 (st : St) (m : GMsg) : Option LateFwd :=
+  st.lateFwd.find? fun e => e.si == m.si && e.ordered == m.ordered && e.inc < m.inc && keyLE st.il m.key e.key
+
+def d24Text (what : String) (m : GMsg) (e : LateFwd) : String :=
+  s!"[C01,C05,C07,C14] [D24:forward after reset] {what}: stream {m.si} incarnation {m.inc}, sequence number {m.key}; a FORWARD-TSN entry {e.si}/{e.key} that stems from an abandoned message of incarnation {e.inc} was taken after that incarnation had been reset, so it moved the NEW incarnation's cursor past {e.key}"
 
 /-- the DATA chunks of a `data …` / `pkt …` op (tokens after `ar`) -/
 def dataChunks (il : Bool) (op : List String) : List DChunk :=
@@ -224,6 +249,9 @@ def checkStep (st : St) (op impl : List String) (pre post : Obs) : St × List St
       if acc && !sto && !post.abort then
         if let some m := st.msgs.find? (fun m => m.ppi == d.ppi) then
           if !m.abandoned && !m.wasRead then
+            match st.d24 m with
+            | some e => out := out ++ [d24Text s!"TSN {d.tsn} (message {m.id}) was accepted for acknowledgement but its chunk was not stored" m e]
+            | none =>
             out := out ++ [s!"[C05,C01] TSN {d.tsn} (message {m.id}) was accepted for acknowledgement but its chunk was not stored: data acknowledged and lost"]
       if acc || sto then
         if !isRecvState pre.state then out := out ++ [s!"[C03] DATA accepted in association state {pre.state}"]
@@ -291,6 +319,19 @@ def checkStep (st : St) (op impl : List String) (pre post : Obs) : St × List St
         -- whether it was taken; there it counts as dropped exactly when a drop is justified (missing stream, full backlog)
         let taken := if serialLT pre.cum c then !serialLT post.cum c else !(!missingAll.isEmpty && post.accq ≥ 16)
         if taken then
+          -- D24 bookkeeping: an entry stemming from an abandoned message of an incarnation that is already over
+          let ents : List (Nat × Bool × Nat) := match op with
+            | [_, _, es] => if es == "none" then [] else (es.splitOn ",").filterMap fun e => match e.splitOn "/" with
+              | [a, k] => some (a.toNat?.getD 0, true, k.toNat?.getD 0)
+              | [a, u, k] => some (a.toNat?.getD 0, u == "o", k.toNat?.getD 0)
+              | _ => none
+            | _ => []
+          for (si, ord, key) in ents do
+            let src := st.msgs.toList.filter fun m => m.abandoned && m.si == si && m.ordered == ord && m.key == key
+            let over := lookupN st.delCount si
+            if !src.isEmpty && src.all (fun m => m.inc < over) then
+              let j := (src.map (·.inc)).foldl max 0
+              st := { st with lateFwd := st.lateFwd ++ [{ si := si, ordered := ord, inc := j, key := key }] }
           -- taken: the cumulative point moved; then every listed stream must exist, or its skip is lost (D23)
           st := { st with g := st.g.skip (BitVec.ofNat 32 c) }
           if serialLT st.hi c then st := { st with hi := c }
@@ -410,6 +451,9 @@ def readCheck (st : St) (name : String) (impl : List String) (pre post : Obs) : 
                 -- everything skipped must have been abandoned by the sender
                 for k in st.msgs do
                   if k.si == si && k.inc == inc && k.ordered && np ≤ k.pos && k.pos < m.pos && !k.abandoned then
+                    match st.d24 k with
+                    | some e => out := out ++ [d24Text s!"ordered message {m.id} delivered while the earlier message {k.id} was neither delivered nor abandoned" k e]
+                    | none =>
                     out := out ++ [s!"[C01] ordered message {m.id} delivered while the earlier message {k.id} was neither delivered nor abandoned"]
                 st := { st with nextPos := setP st.nextPos (si, inc) (m.pos + 1) }
     else if !(pre.noNow == post.noNow) then
@@ -423,10 +467,16 @@ def drainedCheck (st : St) (o : Obs) : List String := Id.run do
   -- an endpoint that has raised an ABORT (protocol violation, reassembly limit) drops what arrives until the write loop
   -- sends the ABORT and closes: the premise of "drained" (a live association) no longer holds
   if o.abort || st.aborted then return out
+  let mut d24seen := false
   for m in st.msgs do
     if !m.abandoned && !m.wasRead then
-      out := out ++ [s!"[C01,C02] message {m.id} (stream {m.si}:{m.inc}) was delivered completely, never abandoned, and no read returned it"]
-      break
+      match st.d24 m with
+      | some e =>
+        if !d24seen then out := out ++ [d24Text s!"message {m.id} was delivered completely, never abandoned, and no read returned it" m e]
+        d24seen := true
+      | none =>
+        out := out ++ [s!"[C01,C02] message {m.id} (stream {m.si}:{m.inc}) was delivered completely, never abandoned, and no read returned it"]
+        break
   if o.heldAll == 0 && o.rwnd != st.buf then
     out := out ++ [s!"[C11] everything was read and nothing is pending, but the advertised window is {o.rwnd}, not the buffer {st.buf}"]
   if o.heldAll != 0 then
@@ -468,7 +518,9 @@ def step (st : St) (op impl : List String) : St × List String :=
     let has (m sub : String) : Bool := (m.splitOn sub).length > 1
     let isGather := match st.pending with | some (["gather"], _) => true | _ => false
     let late := v1.filter fun m => has m "panicked" || (isGather && has m "ABORT")
-    ({ st2 with obs := post, haveObs := true, pending := none, aborted := st2.aborted || post.abort },
+    let gone := (pre.reg.filter fun si => !post.reg.contains si).eraseDups
+    let dc := gone.foldl (fun l si => (si, lookupN l si + 1) :: l.filter (·.1 != si)) st2.delCount
+    ({ st2 with obs := post, haveObs := true, pending := none, aborted := st2.aborted || post.abort, delCount := dc },
       if st.aborted then late else v1 ++ v2)
   | _ => ({ st with pending := some (op, impl) }, [])
 
